@@ -269,6 +269,8 @@ def instances(tier, seed):
         yield 'h_chain', dict(depth=depth, opts=OPTIONS[0])
     for n, fo, pad in ((255, 4, 0), (256, 4, 0), (257, 4, 0), (40, 1, 0)) + (((65535, 4, 0), (65536, 4, 0), (65537, 4, 0)) if tier == 'thorough' else ()):
         for o in (OPTIONS[0], OPTIONS[5]):
+            if n > 60000 and n != 65536 and o is not OPTIONS[0]:
+                continue          # (a 65 536-cell bag costs minutes: both option sets at 65 536 only)
             yield 'h_many', dict(n=n, fanout=fo, opts=o, payload_pad=pad)
 
 
